@@ -151,6 +151,9 @@ pub fn wire_cell(spec: &Value) -> Value {
         Err(e) => return json!({"machinery_error": format!("server start: {e}")}),
     };
     for write in [false, true] {
+        if write && cfg.read_only {
+            continue;
+        }
         for with_opts in [false, true] {
             let v = wire_case(&srv, cfg.dup, write, with_opts);
             c.executions += 1;
@@ -164,6 +167,9 @@ pub fn wire_cell(spec: &Value) -> Value {
         }
     }
     for _rep in 0..3 {
+        if cfg.read_only {
+            break;
+        }
         let v = peer_leaves_early(&srv, cfg.dup);
         c.executions += 1;
         c.states += 1;
@@ -172,16 +178,37 @@ pub fn wire_cell(spec: &Value) -> Value {
             c.violations.push(Violation { property: "C16".into(), clause, facts: facts(&[("n", json!(cfg.dup)), ("single", json!(cfg.single))]), what: format!("[{}] {}", cfg.brief(), what), replay: json!({"engine": "c16_wire", "srv": cfg.to_json()}), weight: cfg.dup as u64 });
         }
     }
-    // the ERROR reply to a request for a missing file is sent once
-    let mut cl = Client::new(srv.addr);
-    cl.to_server(&rc::request(false, b"missing_file_xyz", &[]));
-    let got = collect_copies(&mut cl, 1);
-    c.executions += 1;
-    c.states += 1;
-    c.transitions += 1;
-    if got.len() != 1 || !matches!(rc::decode(&got[0]), Ok(RPacket::Error { code: 1, .. })) {
-        c.violations.push(Violation { property: "C16".into(), clause: "wire-multiplicity".into(), facts: facts(&[("n", json!(cfg.dup))]), what: format!("[{}] the ERROR refusal must be sent once, got {:?}", cfg.brief(), got.iter().map(|b| rc::describe(b)).collect::<Vec<_>>()), replay: json!({"engine": "c16_wire", "srv": cfg.to_json()}), weight: 1 });
+    // every kind of ERROR reply of the listener is sent once: missing file, escaping name, read-only server, existing file
+    // without --overwrite, stray non-request packet
+    let _ = std::fs::write(format!("{}/dup_exists", srv.recv_dir), b"already here");
+    let mut refusals: Vec<(&str, Vec<u8>, Option<u16>)> = vec![
+        ("RRQ for a missing file", rc::request(false, b"missing_file_xyz", &[]), Some(1)),
+        ("RRQ for an escaping name", rc::request(false, b"../dup_escape", &[]), Some(2)),
+        ("stray ACK to the listening port", rc::ack(1), None),
+    ];
+    if cfg.read_only {
+        refusals.push(("WRQ to a read-only server", rc::request(true, b"dup_ro", &[]), Some(2)));
+        refusals.push(("WRQ with an option to a read-only server", rc::request(true, b"dup_ro", &[("blksize".into(), "8".into())]), Some(2)));
+    } else if !cfg.overwrite {
+        refusals.push(("WRQ for an existing file without --overwrite", rc::request(true, b"dup_exists", &[]), Some(6)));
     }
+    for (what, bytes, code) in refusals {
+        let mut cl = Client::new(srv.addr);
+        cl.to_server(&bytes);
+        let got = collect_copies(&mut cl, 1);
+        c.executions += 1;
+        c.states += 1;
+        c.transitions += 1;
+        let ok = got.len() == 1 && match rc::decode(&got[0]) {
+            Ok(RPacket::Error { code: k, .. }) => code.map(|want| want == k).unwrap_or(true),
+            _ => false,
+        };
+        if !ok {
+            c.violations.push(Violation { property: "C16".into(), clause: "wire-multiplicity".into(), facts: facts(&[("n", json!(cfg.dup))]), what: format!("[{}] {what}: the ERROR reply must be sent exactly once, got {:?}", cfg.brief(), got.iter().map(|b| rc::describe(b)).collect::<Vec<_>>()), replay: json!({"engine": "c16_wire", "srv": cfg.to_json()}), weight: 1 });
+        }
+        quiesce();
+    }
+    let _ = std::fs::remove_file(format!("{}/dup_exists", srv.recv_dir));
     c.samples.push(json!({"srv": cfg.brief(), "wire": "copies of every DATA / ACK counted at a reference client, OACK / ACK 0 / ERROR counted once"}));
     c.to_json()
 }
@@ -300,6 +327,19 @@ pub fn check(tier: Tier) -> Outcome {
             cells.push(json!({"srv": s.to_json()}));
         }
     }
+    // the mode combined with the other server switches (read-only; no --overwrite)
+    for dup in [1u8, 2] {
+        for single in [false, true] {
+            for (read_only, overwrite) in [(true, false), (false, false)] {
+                let mut s = SrvCfg::basic();
+                s.dup = dup;
+                s.single = single;
+                s.read_only = read_only;
+                s.overwrite = overwrite;
+                cells.push(json!({"srv": s.to_json()}));
+            }
+        }
+    }
     let n = cells.len();
     let res = run_cells("c16_wire", cells, &crate::pool_opts(tier));
     out.absorb(res, n);
@@ -320,7 +360,7 @@ pub fn check(tier: Tier) -> Outcome {
     let n = cells.len();
     let res = run_cells("c14_bin", cells, &crate::pool_opts(tier));
     out.absorb(res, n);
-    out.rule = "E1 Mode A with repeat = N+1 for N in {0,1,2,3} x both roles x windowsize 1..3 x 5 lengths, D <= 1, with peers that answer once and peers that answer every copy, N = 254 on a 2-block transfer per role: multiplicity monitor (every burst is a concatenation of groups of exactly N+1 identical datagrams, DATA and ACK k>=1). E2: the real Server with --duplicate-packets N in {0..3}, both port modes: copies of each DATA / ACK counted at a reference client, OACK / ACK 0 / ERROR counted once, byte identity. Config::new for every N in 0..=300 and non-numeric values; the tftpd binary started with 254 (runs), 255 and 256 (must exit with an error). tftpc against a duplicating tftpd in both directions. states = executions, non-trivial = executions with a distinct trace.".into();
+    out.rule = "E1 Mode A with repeat = N+1 for N in {0,1,2,3} x both roles x windowsize 1..3 x 5 lengths, D <= 1, with peers that answer once and peers that answer every copy, N = 254 on a 2-block transfer per role: multiplicity monitor (every burst is a concatenation of groups of exactly N+1 identical datagrams, DATA and ACK k>=1). E2: the real Server with --duplicate-packets N in {0..3}, both port modes: copies of each DATA / ACK counted at a reference client, OACK / ACK 0 / every kind of ERROR refusal counted once (also on read-only and no-overwrite servers), byte identity. Config::new for every N in 0..=300 and non-numeric values; the tftpd binary started with 254 (runs), 255 and 256 (must exit with an error). tftpc against a duplicating tftpd in both directions. states = executions, non-trivial = executions with a distinct trace.".into();
     out.assumptions = vec!["surplus copies are looked for during 4 ms after the expected ones (the subject pauses 1 ms between copies); a surplus copy seen is a definite violation, an unseen one is not proof of absence — E1 counts exactly".into()];
     out
 }
